@@ -19,6 +19,12 @@ for pid in sorted(PROPS):
         "level_note": t["note"],
         "technique": t["technique"],
     })
+na = list(NOT_APPLICABLE)
+claimed = set(PROPS) | {x["property_id"] for x in na}
+for i in range(1, 20):
+    pid = "C%02d" % i
+    if pid not in claimed:
+        na.append({"property_id": pid, "reason": "not claimed yet: its check is still being built (no technical obstacle; see DESIGN.md section 6)"})
 m = {
     "version": 1,
     "setup_cmd": "./check --setup",
@@ -33,7 +39,7 @@ m = {
                  "serves_properties": sorted(PROPS),
                  "kind_free_text": "Coq 8.16 theorems about a Gallina model (coq/), translator gengo regenerating coq/gen/*.v from /repo on every run, correspondence harness (Go, -tags verif) + extracted OCaml model driver comparing histories, Go-side monitors evaluating the property statement on the library"}],
     "checks": checks,
-    "not_applicable": NOT_APPLICABLE,
+    "not_applicable": na,
     "notes": NOTES,
 }
 json.dump(m, open(os.path.join(os.path.dirname(os.path.dirname(os.path.abspath(__file__))), "MANIFEST.json"), "w"), indent=1)
